@@ -6,6 +6,7 @@ Importable pieces for the property checks (c03 / c05 / c06 / c19):
     build_harness() -> (exe | None, log)
     gen_run(rng, stop=None, **over) -> solvers.Op
     sweep_ops(rng, exe, n) -> [op lines]          exhaustive stop injection on fixed runs
+    corpus_ops() -> [op lines]                    fixed runs reaching rare line-search paths
     replay(exe, ops) -> dict(n, bad, skipped, first=[...], status=Counter)
     DRIVER, MODULES, EXTRA_SOURCES, GEN_SCRIPTS
 `python3 checks/loop_zerofpr.py [--seeds 1,2,3] [--n 600] [--sweep 6]` runs the self-test:
@@ -26,6 +27,7 @@ DRIVER = 'drv_loop_zerofpr'
 MODULES = ['Alpaqa.Props.C03_Zerofpr', 'Alpaqa.Props.C05_Zerofpr', 'Alpaqa.Props.C06_Zerofpr',
            'Alpaqa.Props.C19_Zerofpr']
 EXTRA_SOURCES = ['Alpaqa/Model/Zerofpr.lean', 'Alpaqa/Proofs/ZerofprInv.lean',
+                 'Alpaqa/Proofs/ZerofprExample.lean',
                  'Alpaqa/Proofs/ZerofprStep.lean',
                  'Alpaqa/Gen/C05.lean', 'Alpaqa/Gen/C06.lean', 'Driver/LoopZerofpr.lean']
 GEN_SCRIPTS = ['gen_c05.py', 'gen_c06.py']
@@ -35,6 +37,14 @@ MAX_ITERS = [0, 1, 2, 3, 5, 20, 60]
 # parameters ZeroFPR has on top of the common ones (harness/solvers_zerofpr.cpp)
 ZEROFPR_PARAMS = ['minls', 'force', 'beta', 'lstol', 'updcand', 'recomp', 'updprox']
 EPS10 = 10 * 2.220446049250313e-16
+
+
+def corpus_ops():
+    """Fixed runs that reach rarely taken line-search paths (checks/corpus/loop_zerofpr.txt)."""
+    path = os.path.join(C.VERIF, 'checks', 'corpus', 'loop_zerofpr.txt')
+    if not os.path.exists(path):
+        return []
+    return [l.strip() for l in open(path, encoding='utf8') if l.strip() and not l.startswith('#')]
 
 
 def build_harness():
@@ -79,6 +89,16 @@ def gen_run(rng, stop=None, wild=False, **over):
                'stopat': '0', 'stopcb': '0',
                'nanat': str(rng.choice([0] * 9 + [rng.randint(1, 12)])),
                'oot': str(rng.choice([0] * 19 + [1])), 'wmscratch': str(rng.choice([0, 0, 1]))})
+    if rng.random() < 0.25:
+        # "hard line search" profile: a Lipschitz estimate that is far too small away from x0
+        # (penalty terms with large Σ switch on along the step), no rounding margins, a long
+        # τ-backtracking range — reaches step-size backtracking *after* τ was reduced, direction
+        # resets inside the line search, line-search failures
+        op.update({'L0': f2h(rng.choice([2.0 ** -6, 2.0 ** -3])), 'minls': f2h(2.0 ** -20),
+                   'qubtol': f2h(0.0), 'lstol': f2h(0.0), 'force': '0',
+                   'dir': rng.choice(['adv', 'lbfgs', 'anderson']) if not l1 else 'adv',
+                   'maxiter': str(rng.choice([5, 20, 60])),
+                   'Sig': S.kvvec([2.0 ** rng.randint(4, 10) for _ in range(p['m'])])})
     if stop is None:
         r = rng.random()
         if r < 0.2:
@@ -215,6 +235,11 @@ def selftest(argv):
     total = bad = skipped = nmon = 0
     status = collections.Counter()
     cov_all = collections.defaultdict(collections.Counter)
+    r = replay(exe, corpus_ops())
+    print(f'corpus: runs={r["n"]} mismatches={r["bad"]} skipped={r["skipped"]}')
+    for m in r['first']:
+        print(m)
+    total += r['n']; bad += r['bad']; skipped += r['skipped']; nmon += len(r.get('monitor_hits', []))
     for sd in seeds:
         rng = random.Random(sd * 1000003 + 5)
         ops = [gen_run(rng, wild=(i % 3 == 2)).line() for i in range(n)]
